@@ -480,6 +480,40 @@ impl C11 {
                 }
             }
         }
+        // construction from a tree configuration: valid (persistent location), malformed JSON, unknown fields
+        {
+            let case = json!({"kind":"crypto","req": d0.to_json(), "what": "new"});
+            let dir = super::tree::scratch_dir("c11cfg");
+            let cfgs: Vec<(&str, String, String)> = vec![
+                ("empty object", "{}".into(), "{}".into()),
+                ("persistent location", json!({"tree_config": {"path": dir.join("a").to_str().unwrap(), "temporary": false, "cache_capacity": 1048576, "mode": "LowSpace"}}).to_string(), json!({"tree_config": {"path": dir.join("b").to_str().unwrap(), "temporary": false, "cache_capacity": 1048576, "mode": "LowSpace"}}).to_string()),
+                ("malformed json", "{\"tree_config\": ".into(), "{\"tree_config\": ".into()),
+                ("unknown fields", json!({"tree_config": {"foo": 1}, "bar": [1, 2]}).to_string(), json!({"tree_config": {"foo": 1}, "bar": [1, 2]}).to_string()),
+                ("not utf-8", String::from_utf8_lossy(&[0xff, 0xfe]).to_string(), String::from_utf8_lossy(&[0xff, 0xfe]).to_string()),
+            ];
+            for (name, ca, cb) in cfgs {
+                let rb = guard(|| RLN::new(H, Cursor::new(cb.clone())));
+                let rb = match rb { Ok(r) => r, Err(_) => continue };
+                let mut ctx: *mut RLN = std::ptr::null_mut();
+                let fa = ffi::new(H, &buf(ca.as_bytes()), &mut ctx);
+                n += 1;
+                if fa != rb.is_ok() {
+                    out.push(Discrepancy { key: "C11/new/flag-differs".into(), case: case.clone(), detail: format!("{name}: FFI reports {fa}, RLN::new {}", if rb.is_ok() { "Ok" } else { "Err" }) });
+                }
+                if fa && !ctx.is_null() {
+                    if let Ok(mut b) = rb {
+                        // one mutation and the state read back through each surface
+                        let oa = call_ffi(ctx, &Call::SetNext(fr(1)));
+                        let ob = call_rust(&mut b, &Call::SetNext(fr(1)));
+                        if Ok(oa) != ob || Ok(state_ffi(ctx)) != state_rust(&mut b) {
+                            out.push(Discrepancy { key: "C11/new/state-diverges".into(), case: case.clone(), detail: format!("{name}: the two freshly built instances diverge after one append") });
+                        }
+                    }
+                    unsafe { drop(Box::from_raw(ctx)) };
+                }
+            }
+            let _ = std::fs::remove_dir_all(&dir);
+        }
         Ok((out, n))
     }
 }
